@@ -393,10 +393,15 @@ def _remove_invalid_ckpts(
   checkpoint_files: list[Any] = [
     pathlib.PurePath(c) for c in _allowempty_listdir(dir_path)
   ]
+  # Like `_all_checkpoints`, never count in-flight temporary files or
+  # directories (e.g. left behind by an interrupted save) as checkpoints.
   checkpoint_files = [
     os.path.join(dir_path, c)
     for c in checkpoint_files
-    if c.match(f'{prefix}*') and not c.match(f'*{MP_ARRAY_POSTFIX}')
+    if c.match(f'{prefix}*')
+    and not c.match(f'{prefix}tmp')
+    and not c.match(f'*{MP_ARRAY_POSTFIX}')
+    and not c.match(f'*{ocp.utils.TMP_DIR_SUFFIX}*')
   ]
   checkpoint_files = natural_sort(checkpoint_files)
 
